@@ -335,7 +335,7 @@ def rS(S):
 
 def rB(stmts):
     if not stmts:
-        return "NULL;"
+        return "TRUE;"      # what an empty statement list evaluates to
     return "; ".join(rS(s) for s in stmts) + ";"
 
 
@@ -351,6 +351,9 @@ def render_module(stmts):
 # ------------------------------------------------------------------------
 # reference evaluator
 
+ERROR = "ERROR"
+
+
 class Err(Exception):
     """the language's runtime error carrying a value"""
     def __init__(self, value, why=""):
@@ -362,8 +365,14 @@ class SynErr(Exception):
     pass
 
 
-class HostErr(Exception):
-    """an injected I/O failure surfaces; class and text unspecified"""
+class HostErr(Err):
+    """an injected I/O failure of the module store surfaces.  Since repair
+    2c16005 it is the runtime error 'ERROR' (so a catch inside a module that
+    is being loaded can intercept it); when it reaches the top level the
+    comparison still accepts any failure class."""
+
+    def __init__(self, why=""):
+        Err.__init__(self, ERROR, why)
 
 
 class Unspec(Exception):
@@ -403,7 +412,6 @@ class Scope:
         return out
 
 
-ERROR = "ERROR"
 UNSPEC = object()
 
 
@@ -426,6 +434,7 @@ class Machine:
         self.stats = {}             # reach probes
         self.ctx = []               # 'handler' / 'finally' nesting
         self.blockdepth = 0
+        self.active = []            # names of the functions being executed
 
     def stat(self, key):
         self.stats[key] = self.stats.get(key, 0) + 1
@@ -823,6 +832,15 @@ class Machine:
     def call(self, fn, args):
         if len(args) != len(fn.params):
             raise Unspec("arity")
+        if fn.name in self.active:
+            self.stat("recursive_call")
+        self.active.append(fn.name)
+        try:
+            return self._call(fn, args)
+        finally:
+            self.active.pop()
+
+    def _call(self, fn, args):
         local = Scope(fn.scope, "call:" + fn.name)
         for p, a in zip(fn.params, args):
             local.vars[p] = a
